@@ -132,6 +132,41 @@ def run(ctx):
                 want["Matching commits to trees"] = j["unique_commit_count"]
             if finals != want:
                 res.violations.append(vlib.Violation("final progress lines differ from the census", inp, expected=want, observed=finals))
+        # the 32-bit build (the project releases linux/386 and windows/386): 64-bit atomics on the meter's counter need an
+        # alignment that only such a build can get wrong
+        s386 = vlib.build_sizer_arch("386")
+        res.coverage_extra["build_386_available"] = bool(s386)
+        if s386:
+            bins64 = eng.bins
+            eng.bins = dict(bins64, sizer=s386)
+            try:
+                for it in range(3 if quick else 20):
+                    sc = S.gen_graph(rng, "medium")
+                    roots = SC.build_roots(sc, [], [])
+                    walked = [r["obj"] for r in roots if r["walk"]]
+                    order = sc.enum_random(walked, rng)
+                    rc1, out1, err1, _ = eng.run_fake(sc, order, [], [], extra_args=["--json", "--progress"])
+                    rc2, out2, err2, _ = eng.run_fake(sc, order, [], [], extra_args=["--json", "--no-progress"])
+                    inp = {"build": "GOARCH=386", "args": ["--json", "--progress"], "fakegit_scenario": sc.fakegit_json(order)}
+                    res.case(("386", tuple(sc.oids), tuple(order)), True)
+                    if rc1 != 0 or rc2 != 0 or out1 != out2:
+                        res.violations.append(vlib.Violation("on the 386 build --progress changes the outcome", inp,
+                                                             expected={"rc": rc2, "stdout": out2[:200].decode("latin1")},
+                                                             observed={"rc": rc1, "stdout": out1[:200].decode("latin1"), "stderr": err1[-300:].decode("latin1")}))
+                        continue
+                    j = json.loads(out1)
+                    finals = {}
+                    for line in err1.split(b"\n"):
+                        m = re.match(rb"(.*?): (\d+) ", line.split(b"\r")[-1])
+                        if m:
+                            finals[m.group(1).decode()] = int(m.group(2))
+                    want = {"Processing blobs": j["unique_blob_count"], "Processing trees": j["unique_tree_count"],
+                            "Processing commits": j["unique_commit_count"], "Processing annotated tags": j["unique_tag_count"],
+                            "Processing references": len(sc.refs), "Matching commits to trees": j["unique_commit_count"]}
+                    if finals != want:
+                        res.violations.append(vlib.Violation("on the 386 build the final progress lines differ from the census", inp, expected=want, observed=finals))
+            finally:
+                eng.bins = bins64
         # under a fault: the run fails, and still no phase gets a second final line (and nothing is written to stdout)
         sc = S.gen_graph(rng, "medium")
         tgs = [i for i, o in enumerate(sc.objects) if o["kind"] == "tag"]
